@@ -8,6 +8,7 @@ from sa import api
 from sa.algebra import (Und, Rat, PW, ObjV, SymDict, rat_of, as_pw, ONE, ZERO, rat_sign, GuardV)
 from sa.core import AnalysisError, unparse, walk_no_nested
 from . import kin
+from . import idx
 
 LEVEL = "other"
 EXPLANATION = (
@@ -101,8 +102,49 @@ def check(repo, col, tier):
                 col.unk("R-C03-steady", gfi, fn, f"outside the analysable fragment: {e}", node=gfi.node)
 
 
+    col.rule("R-C03-dt", "mechanisms are advanced by the full time step of the call", 5)
+    step_dt(repo, col, "R-C03-dt")
     col.rule("R-C03-rows", "every channel is stepped on its own rows: gathered, advanced and written back with one index", 6)
     channel_step_rows(repo, col, "R-C03-rows")
+
+
+def step_dt(repo, col, R):
+    """Every mechanism is advanced by the FULL time step of the call: what Module.step hands to `_step_channels` / `_step_synapse` as
+    their time step is its own `delta_t`, whatever the voltage scheme does with it (Crank-Nicolson halves the step of the implicit
+    VOLTAGE solve only); and what `_step_channels*` / `_step_synapse*` hand on to `update_states` is the time step they received."""
+    n = 0
+    for cls, meth, callees in (("Module", "step", ("_step_channels", "_step_synapse")),
+                               ("Module", "_step_channels", ("_step_channels_state",)),
+                               ("Module", "_step_channels_state", ("update_states",)),
+                               ("Network", "_step_synapse", ("_step_synapse_state",)),
+                               ("Network", "_step_synapse_state", ("update_states",))):
+        fi = repo.method(cls, meth)
+        ex = idx.expander(repo, fi)
+        dtp = next((p_ for p_ in fi.params if p_ in ("delta_t", "dt")), None)
+        if dtp is None:
+            raise AnalysisError(f"{cls}.{meth}: no time-step parameter")
+        for c in ex.calls:
+            if not (isinstance(c.func, ast.Attribute) and c.func.attr in callees):
+                continue
+            t = ex.term(c)
+            # which argument is the callee's time step: by the callee's signature (package methods) / position 1 of update_states
+            a = t.kw.get("delta_t") or t.kw.get("dt")
+            if a is None:
+                if c.func.attr == "update_states":
+                    pos = 1
+                else:
+                    cal = next((k.methods[c.func.attr] for k in (repo.classes.get("Network"), repo.classes.get("Module")) if k is not None and c.func.attr in k.methods), None)
+                    names = [p_ for p_ in cal.params if p_ != "self"] if cal is not None else []
+                    pos = next((i for i, p_ in enumerate(names) if p_ in ("delta_t", "dt")), None)
+                args = [x for x in t.args[1:]]
+                a = args[pos] if pos is not None and pos < len(args) else None
+            n += 1
+            ok = a is not None and a.op == "param" and a.name == dtp
+            col.check(ok, R, fi, f"{cls}.{meth}: {c.func.attr} advances by the time step of the call", f"{dtp}",
+                      f"`{c.func.attr}` receives `{a.short(80) if a is not None else None}` as its time step: the gates are advanced by another interval than the "
+                      f"voltage (e.g. half a step under Crank-Nicolson), the closed-form update x*E + x_inf*(1-E) is taken with the wrong E", node=c)
+    if n < 5:
+        raise AnalysisError(f"only {n} time-step hand-overs found")
 
 
 def channel_step_rows(repo, col, R):
